@@ -348,11 +348,11 @@ func MockCheck(prop, tier string) error {
 			}
 			nonReplay = append(nonReplay, wr.NonReplay...)
 		}
-		if len(total.Unsupported) > 0 {
-			return Fatal2("the harness met something it does not support (not a verdict):\n  %s", strings.Join(total.Unsupported, "\n  "))
-		}
 		if len(violations) > 0 {
 			break
+		}
+		if len(total.Unsupported) > 0 {
+			return Fatal2("the harness met something it does not support (not a verdict):\n  %s", strings.Join(total.Unsupported, "\n  "))
 		}
 	}
 	if len(nonReplay) > 0 && len(violations) == 0 {
